@@ -163,6 +163,29 @@ CHECKS["C15"] = dict(
     note="Trusted: ref/mlref.py (numpy.kron); integer payloads => exact equality; order inside derived structures' index lists is "
          "not demanded (undocumented).")
 
+CHECKS["C03"] = dict(
+    category="model_checking", design_ref="DESIGN.md §3 C03",
+    technique="explicit-state enumeration of ALL reachable hierarchical spaces of the C04 rows x forms x geometries x {HB,THB} x "
+              "symmetric flag x bdspecs; every assembled entry compared with the level-wise Galerkin oracle built from reference "
+              "representation matrices and tensor-product level assemblies",
+    text="For each of the 730 (quick) / ~2500 (thorough) states the hierarchical matrix/vector of mass, stiffness (predefined and "
+         "string), non-symmetric convection with a parameter, reaction with a field and physical/parametric functionals is "
+         "compared entrywise (1e-11 relative) with (R_l^T A_l R_l)[i,j], l = finer level; polynomial integrands additionally with "
+         "I^T A_fine I; THB via the transform congruence; symmetric vs general assembly.",
+    note="Trusted: ref/hmodel.py representation matrices, tensor-product assembly of each level (C01/C09), thb_to_hb (C04); "
+         "1D/2D, degrees 1-3, scalar forms (the library marks vector-valued hierarchical forms TODO).")
+CHECKS["C11"] = dict(
+    category="model_checking", design_ref="DESIGN.md §3 C11",
+    technique="exhaustive enumeration of all off-diagonal sparsity patterns (n<=4) x value sets x formats x sweeps x iterations x "
+              "ordered index lists against exact rational Gauss-Seidel; all states of C04 rows x strategies x smoothers x bases "
+              "with set invariants, fixed-point and energy-contraction (A - E^T A E >= 0 on the assembled iteration operator); "
+              "drivers under every scripted residual pattern",
+    text="~1.1M (quick) / 8.9M (thorough) gauss_seidel calls compared with Fraction references; local multigrid on every reachable "
+         "hierarchical state (1679 / 5942 states) for 4 strategies x 5 smoothers x HB/THB x bdspecs; iterative_solve under all "
+         "{>=tol,<tol}^k patterns, solve_hmultigrid and twogrid termination contracts.",
+    note="Trusted: ref/gs.py (Fractions), ref/hmodel.py; systems are I^T(K+M)I from Kronecker tensor-product matrices; energy "
+         "tolerance 1e-9 ||A||.")
+
 NOT_YET = {}
 
 
